@@ -283,6 +283,9 @@ func runSubject(h *History, cfg config.Blockchain, l Local, steps []Step, backen
 			sr.lines = append(sr.lines, [2]string{"flush", strings.Join(puts, " || ")})
 		}
 		gcPending = added > 0
+		// the GC that follows a timer flush is over by now (watch.wait): its line goes right here, before the next
+		// blocks - the gcBlockTimes LRU makes the order of GC runs and block additions matter
+		gcLine()
 	}
 	skipBlk := uint32(0) // a block that was already added inside a refused flush
 	for si, s := range steps {
